@@ -8,13 +8,17 @@
 
    Client packets (k):
      "start"  login start with a valid ("v") or invalid ("i") user name
-     "enc"    encryption response; tok in {"exact","wrong","garbage"},
+     "enc"    encryption response; tok in {"exact","wrong","garbage","empty","prefix","longer"}
+              (the issued token; one bit flipped; undecryptable bytes; zero bytes; a proper
+              prefix of the issued token; the issued token followed by extra bytes),
               sec in {"ok","garbage","short"}
      "plugin" login plugin response with an id nobody asked for
      "unknown" a packet id that is no login packet
    Environment: pre in {"allow","deny","forceOnline","forceOffline"},
-     sess in {"ok","204","401","500","drop","empty200","noname"}  (session server's
-     answer for the exact (derived server id, user name) pair; anything else gets 204),
+     sess in {"ok","okany","204","401","500","drop","empty200","noname"}  (session server's
+     answer for the exact (derived server id, user name) pair; anything else gets 204 --
+     except "okany", a session server that confirms this user for ANY server id: admission
+     then still needs the secret the client sent to have decrypted),
      cfgOnline (online-mode setting).
 
    Reactions: got in {"encreq","success","disconnect","none","garbled"}, closed.
@@ -26,8 +30,8 @@ EXTENDS Naturals, Sequences, TLC, Json
 CONSTANTS MaxLen, CfgOnline
 
 Pres == {"allow", "deny", "forceOnline", "forceOffline"}
-Sesss == {"ok", "204", "401", "500", "drop", "empty200", "noname"}
-Toks == {"exact", "wrong", "garbage"}
+Sesss == {"ok", "okany", "204", "401", "500", "drop", "empty200", "noname"}
+Toks == {"exact", "wrong", "garbage", "empty", "prefix", "longer"}
 Secs == {"ok", "garbage", "short"}
 
 Pkts == [k : {"start"}, name : {"v", "i"}]
@@ -59,7 +63,7 @@ Step(s, a, p, e, pkt, got, closed, s2, a2) ==
               ELSE got = "success" /\ ~closed /\ s2 = "done" /\ a2 = TRUE
       [] pkt.k = "start" /\ s # "expected" -> Fail(got, closed, s2, a2, a)      \* twice / late
       [] pkt.k = "enc" /\ s = "encSent" ->
-            IF pkt.tok = "exact" /\ pkt.sec = "ok" /\ e = "ok"
+            IF pkt.tok = "exact" /\ pkt.sec = "ok" /\ e \in {"ok", "okany"}
               THEN got = "success" /\ ~closed /\ s2 = "done" /\ a2 = TRUE
               \* authentication failed: never admitted; whether and when the proxy closes
               \* is not what the property is about
@@ -87,7 +91,7 @@ Spec == Init /\ [][Next]_vars
 (* The property, as invariants of the history machine *)
 AdmitOnlyIfVerified ==
     admitted /\ Online(pre) =>
-        \E i \in 1..Len(h) : h[i].k = "enc" /\ h[i].tok = "exact" /\ h[i].sec = "ok" /\ sess = "ok"
+        \E i \in 1..Len(h) : h[i].k = "enc" /\ h[i].tok = "exact" /\ h[i].sec = "ok" /\ sess \in {"ok", "okany"}
 NoAdmissionAfterDisorder ==     \* a second login start or an early/late encryption response never admits
     \A i \in 1..Len(h) :
         (h[i].k = "start" /\ \E j \in 1..(i-1) : h[j].k = "start") => ls = "closed"
